@@ -437,6 +437,21 @@ pub fn observation_panicked(msg: &str) -> ! {
     flush_all_outs();
     std::process::exit(0);
 }
+/// A probe of the code under test (learning which keys realise the hash attributes a small model asks for) could not
+/// realise what the mechanism spec presupposes - e.g. no key with stride h2 = 0 exists because the code derives its
+/// positions differently.  Not a verdict and not a tool failure: the mechanism spec's hashing model does not describe
+/// this code, so the spec -> code replay of this model is skipped (recorded like a hang, kind `probe_failed`, exit 0;
+/// the pipeline counts it as drift) and the property level carries on with the driver scenarios.
+pub fn probe_failed(msg: &str) -> ! {
+    let rec = json!({"k":"hang","s":"vh","kind":"probe_failed","tid":0,"msg": msg, "note": HANG_NOTE.lock().unwrap().clone()});
+    let path = HANG_PATH.lock().unwrap().clone();
+    if let Ok(mut f) = std::fs::OpenOptions::new().create(true).append(true).open(&path) {
+        let _ = writeln!(f, "{}", rec);
+    }
+    eprintln!("PROBE-FAILED: {}", rec);
+    flush_all_outs();
+    std::process::exit(0);
+}
 pub static HANG_PATH: std::sync::Mutex<String> = std::sync::Mutex::new(String::new());
 /// Run `f`; Err(message) if it panicked.
 pub fn guarded<T>(f: impl FnOnce() -> T) -> Result<T, String> {
